@@ -557,6 +557,22 @@ func genDraw(t *rapid.T) DrawCase {
 			if rapid.Bool().Draw(t, "tweak") {
 				op.Style = gen.Style(t, "st2", true, true)
 			}
+		case k == 30 && name != "UTF-8":
+			// a fallback rune shown, its fallback changed or removed, then painted again
+			r := rapid.SampledFrom(fbRunes[:7]).Draw(t, "sr")
+			x1, y1 := rapid.IntRange(0, w-1).Draw(t, "sx1"), rapid.IntRange(0, h-1).Draw(t, "sy1")
+			c.Ops = append(c.Ops, Op{Kind: "set", X: x1, Y: y1, R: r}, Op{Kind: "show"})
+			if rapid.Bool().Draw(t, "sunreg") {
+				c.Ops = append(c.Ops, Op{Kind: "unregfb", R: r})
+			} else {
+				c.Ops = append(c.Ops, Op{Kind: "regfb", R: r, Subst: string(rapid.SampledFrom([]rune("ox+-*#|=AZ?")).Draw(t, "ssub"))})
+			}
+			if rapid.Bool().Draw(t, "sother") {
+				c.Ops = append(c.Ops, Op{Kind: "set", X: rapid.IntRange(0, w-1).Draw(t, "sx2"), Y: rapid.IntRange(0, h-1).Draw(t, "sy2"), R: r})
+				op = Op{Kind: "show"}
+			} else {
+				op = Op{Kind: "sync"}
+			}
 		case k == 29:
 			// narrow rune over / next to where wide runes may be
 			op = Op{Kind: "set", X: rapid.IntRange(0, w-1).Draw(t, "nx"), Y: rapid.IntRange(0, h-1).Draw(t, "ny"),
